@@ -250,9 +250,19 @@ func (p *{{parser}}) _recover() bool {
 
 			// An Error that is still on the stack was never delivered to an
 			// action. The earliest one tells where the input first went wrong.
+			// (The empty alternative of '@error?' leaves a zero Error on the
+			// stack, which is no error; '@error*' and '@error+' hold theirs in a
+			// slice.)
 			for i := len(p._stack) - 1; i >= depth; i-- {
-				if e, ok := p._stack[i].Sym.(Error); ok {
-					errSym = e
+				switch e := p._stack[i].Sym.(type) {
+				case Error:
+					if e.Expected != nil {
+						errSym = e
+					}
+				case []Error:
+					if len(e) > 0 {
+						errSym = e[0]
+					}
 				}
 			}
 
